@@ -113,7 +113,7 @@ def tlc(module, cfg, env=None, workers=None, xmx="6g", timeout=3600, workdir=Non
     workers = workers or min(NCPU, 16)
     workdir = ensure_dir(workdir or os.path.join(OUT, "tlc"))
     meta = os.path.join(workdir, "md_%s_%d_%d" % (module, os.getpid(), next(_counter)))
-    jopts = "-Xss1g -Xmx%s" % xmx
+    jopts = "-Xss256m -Xmx%s" % xmx
     if deque:
         jopts += " -Dtlc2.tool.queue.IStateQueue=StateDeque"
     e = dict(os.environ)
